@@ -568,7 +568,10 @@ fn run(args: &Args, shapes: &[&'static vhc::ShapeInfo]) {
         }
         if nontrivial(prop, &e, &mut st) {
             st.nontrivial += 1;
-            st.distinct.insert(mix64(config_class(&e.case) ^ sig.rotate_left(7)));
+            // explored schedules are distinct executions by construction (one per script)
+            let script_h = e.case.script.iter().fold(0x51_7cc1_b727_220a_95u64, |h, &c| mix64(h ^ (c as u64 + 1)));
+            let sh = if e.case.strategy == Strategy::Script { script_h } else { 0 };
+            st.distinct.insert(mix64(config_class(&e.case) ^ sig.rotate_left(7) ^ sh));
             if samples.len() < 3 && (idx / nshards) % 97 == 0 {
                 samples.push(sample_json(&e, idx));
             }
